@@ -110,7 +110,22 @@ impl<X> Vec<X> {
         ensures r.r@.len() == self.v@.len(), forall|i: int| 0 <= i < self.v@.len() ==> *(#[trigger] r.r@[i]) == self.v@[i],
     { unimplemented!() }
 }
+/// core::iter::Enumerate over a bucket iterator
+pub struct VEnum<'a, X> { pub r: Ghost<Seq<(usize, &'a X)>> }
+impl<'a, X> VEnum<'a, X> {
+    pub open spec fn rest(&self) -> Seq<(usize, &'a X)> { self.r@ }
+    #[verifier::external_body]
+    pub fn next(&mut self) -> (r: Option<(usize, &'a X)>)
+        ensures
+            old(self).rest().len() == 0 ==> r is None && final(self).rest() == old(self).rest(),
+            old(self).rest().len() > 0 ==> r == Some(old(self).rest()[0]) && final(self).rest() == old(self).rest().skip(1),
+    { unimplemented!() }
+}
 impl<'a, X> VIter<'a, X> {
+    #[verifier::external_body]
+    pub fn enumerate(self) -> (r: VEnum<'a, X>)
+        ensures r.r@.len() == self.r@.len(), forall|i: int| 0 <= i < self.r@.len() ==> (#[trigger] r.r@[i]).0 == i && r.r@[i].1 == self.r@[i],
+    { unimplemented!() }
     pub open spec fn rest(&self) -> Seq<&'a X> { self.r@ }
     #[verifier::external_body]
     pub fn next(&mut self) -> (r: Option<&'a X>)
